@@ -512,8 +512,9 @@ fn locator_siblings(cx: &mut Ctx, loc: &Src) {
         let re_site = regex::Regex::new(r"find_newline\(").unwrap();
         let n_sites = re_site.find_iter(&t).count();
         // `Some((P, E)) => { .. TextSize::new(Pasu32 + E.len()asu32) .. }` (P possibly re-based first)
-        let re_ok = regex::Regex::new(r"Some\(\((\w+),(\w+)\)\)=>\{[^{}]*?TextSize::new\((\w+)asu32\+(\w+)\.len\(\)asu32\)").unwrap();
-        let good = re_ok.captures_iter(&t).filter(|c| c[1] == c[3] && c[2] == c[4]).count();
+        let re_ok = regex::Regex::new(r"Some\(\((\w+),(\w+)\)\)=>[\{\(][^{}]*?TextSize::new\(([^;{}]*?)asu32\+(\w+)\.len\(\)asu32\)").unwrap();
+        let mentions = |e: &str, v: &str| regex::Regex::new(&format!(r"(^|\W){}($|\W)", regex::escape(v))).unwrap().is_match(e);
+        let good = re_ok.captures_iter(&t).filter(|c| mentions(&c[3], &c[1]) && c[2] == c[4]).count();
         if n_sites >= 2 && good == n_sites {
             cx.ok(rule, &format!("{} find_newline sites: line end = break position + length of the line ending found", n_sites));
         } else {
@@ -568,6 +569,38 @@ fn line_break_sets(cx: &mut Ctx) {
                 cx.ok(rule, &format!("{}: {}(LF, CR, ..)", rel, f));
             } else {
                 cx.fail(rule, &format!("{}/needles/{}/{}", rule, rel, f), &format!("{}:{}", rel, line), &format!("{} searches for {:?}; its siblings treat exactly LF and CR as line breaks", f, needles));
+            }
+        }
+    }
+    // str::lines() knows LF and CR LF only: a lone CR would not be a line break for it
+    for rel in ["vendored/src/source_location/newlines.rs", "vendored/src/source_location/line_index.rs", "vendored/src/source_location/mod.rs", "core/src/source_code.rs"] {
+        if let Ok(src) = sm::load(&cx.repo, rel) {
+            let mut hits: Vec<String> = vec![];
+            for it in &src.file.items {
+                let is_test = match it {
+                    syn::Item::Mod(m) => sm::is_cfg_test(&m.attrs),
+                    syn::Item::Fn(f) => sm::is_cfg_test(&f.attrs),
+                    _ => false,
+                };
+                if is_test {
+                    continue;
+                }
+                struct L<'a> {
+                    hits: &'a mut Vec<String>,
+                }
+                impl<'a, 'ast> syn::visit::Visit<'ast> for L<'a> {
+                    fn visit_expr_method_call(&mut self, mc: &'ast syn::ExprMethodCall) {
+                        if (mc.method == "lines" || mc.method == "split_terminator") && (mc.method == "lines" && mc.args.is_empty() || sm::tsc(&mc.args).contains("'\\n'")) {
+                            self.hits.push(format!("{}.{}({})", sm::tsc(&mc.receiver), mc.method, sm::tsc(&mc.args)));
+                        }
+                        syn::visit::visit_expr_method_call(self, mc);
+                    }
+                }
+                use syn::visit::Visit;
+                L { hits: &mut hits }.visit_item(it);
+            }
+            for h in hits {
+                cx.fail(rule, &format!("{}/std-lines/{}", rule, rel), rel, &format!("`{}` splits at LF and CR LF only: a lone CR is a line break for the line index and the lexer but not here, so rows differ on CR-only input", h));
             }
         }
     }
@@ -697,20 +730,68 @@ fn bom_handling(cx: &mut Ctx) {
             continue;
         };
         let mut sites = 0;
-        let mut fns: Vec<(String, &syn::Block)> = vec![];
+        let mut fns: Vec<(String, &syn::Block, &syn::Signature)> = vec![];
         for f in src.all_free_fns() {
-            fns.push((f.sig.ident.to_string(), &f.block));
+            fns.push((f.sig.ident.to_string(), &f.block, &f.sig));
         }
         for i in src.impls() {
             for it in &i.items {
                 if let syn::ImplItem::Fn(f) = it {
                     if !sm::is_cfg_test(&f.attrs) {
-                        fns.push((f.sig.ident.to_string(), &f.block));
+                        fns.push((f.sig.ident.to_string(), &f.block, &f.sig));
                     }
                 }
             }
         }
-        for (fname, block) in fns {
+        // a helper may receive the first-line condition as a bool parameter: then every call passes such a condition
+        let file_text = sm::tsc(&src.file);
+        let param_guard = |sig: &syn::Signature, fname: &str, conds: &[String]| -> bool {
+            let params: Vec<String> = sig.inputs.iter().filter_map(|a| if let syn::FnArg::Typed(t) = a { if sm::tsc(&t.ty) == "bool" { Some(sm::tsc(&t.pat)) } else { None } } else { None }).collect();
+            let all: Vec<String> = sig.inputs.iter().filter_map(|a| if let syn::FnArg::Typed(t) = a { Some(sm::tsc(&t.pat)) } else { None }).collect();
+            for p in params {
+                if !conds.iter().any(|c| *c == p || c.split("&&").any(|x| x == p)) {
+                    continue;
+                }
+                let idx = all.iter().position(|x| *x == p).unwrap();
+                // call sites `fname(a0, a1, ..)` in this file (top-level commas)
+                let mut n = 0;
+                let mut ok = true;
+                let needle = format!("{}(", fname);
+                let mut from = 0;
+                while let Some(k) = file_text[from..].find(&needle) {
+                    let start = from + k;
+                    from = start + needle.len();
+                    let before = file_text[..start].chars().last();
+                    if before.map_or(false, |c| c.is_alphanumeric() || c == '_') || file_text[..start].ends_with("fn") {
+                        continue;
+                    }
+                    let mut depth = 0i32;
+                    let mut args = vec![String::new()];
+                    for ch in file_text[from..].chars() {
+                        match ch {
+                            '(' | '[' | '{' => depth += 1,
+                            ')' | ']' | '}' if depth == 0 => break,
+                            ')' | ']' | '}' => depth -= 1,
+                            ',' if depth == 0 => {
+                                args.push(String::new());
+                                continue;
+                            }
+                            _ => {}
+                        }
+                        args.last_mut().unwrap().push(ch);
+                    }
+                    n += 1;
+                    if !args.get(idx).map_or(false, |a| regex_lite_first_line(a)) {
+                        ok = false;
+                    }
+                }
+                if n >= 1 && ok {
+                    return true;
+                }
+            }
+            false
+        };
+        for (fname, block, sig) in fns {
             sm::for_each_expr_with_conds(block, &mut |e, conds| {
                 // a test: a method call / comparison with the BOM literal as an argument or operand
                 let (is_test, what) = match e {
@@ -730,7 +811,9 @@ fn bom_handling(cx: &mut Ctx) {
                     // (also in a helper of source_location: the first-line condition must then sit in the helper itself)
                     // own condition (the `if` whose condition contains this test) or an enclosing one must pin the first line
                     let own = enclosing_if_cond(block, e);
-                    let guarded = conds.iter().any(|c| first_line(c)) || own.as_deref().map_or(false, |c| first_line(c));
+                    let mut cs: Vec<String> = conds.to_vec();
+                    cs.extend(own.clone());
+                    let guarded = cs.iter().any(|c| first_line(c)) || param_guard(sig, &fname, &cs);
                     if guarded {
                         cx.ok(rule, &format!("{}: `{}` only for the line that starts at offset 0", fname, what));
                     } else {
